@@ -298,6 +298,9 @@ def body(ctx, conv, shape, variant, kind, part, data_first=False, via=None):
 
 
 def cases(tier):
+    # (cheap concrete cases first: a change that makes the symbolic cases below run long is still reported)
+    for conv, shp, variant, kind in (('cf1d', (2, 3), 'yx', 'face'), ('shoc_standard', (2, 3), '-', 'left'), ('ugrid', 'tqp', 'edgedim', 'edge')):
+        yield Case(f'{conv}:{shp}:{variant}:{kind}:huge'.replace(' ', ''), body, dict(conv=conv, shape=shp, variant=variant, kind=kind, part='huge'), max_paths=5)
     top = 3 if tier == 'quick' else 6
     shapes = list(itertools.product(range(1, top + 1), repeat=2))
     configs = []
@@ -342,8 +345,6 @@ def cases(tier):
                 for part in ('meta', 'wind', 'ravel'):
                     yield Case(f'{conv}:{shp}:{variant}:{kind}:{part}:after-{via}'.replace(' ', ''), body,
                                dict(conv=conv, shape=shp, variant=variant, kind=kind, part=part, via=via), patches=_patches, max_paths=500)
-    for conv, shp, variant, kind in (('cf1d', (2, 3), 'yx', 'face'), ('shoc_standard', (2, 3), '-', 'left'), ('ugrid', 'tqp', 'edgedim', 'edge')):
-        yield Case(f'{conv}:{shp}:{variant}:{kind}:huge'.replace(' ', ''), body, dict(conv=conv, shape=shp, variant=variant, kind=kind, part='huge'), max_paths=5)
     # a data variable stored (x, y) listed before the geometry variables: the dataset's own dimension order is x, y
     for conv, variant in (('cf1d', 'yx'), ('cf2d', 'plainvars'), ('shoc_simple', '-')):
         for shp in ((2, 3), (3, 1)) if tier == 'quick' else ((2, 3), (3, 1), (1, 4), (4, 5)):
